@@ -240,6 +240,46 @@ func c14Run(e *Env, isCache bool) {
 	overlapped := map[string]bool{}
 	rangeActive := 0
 
+	// intruder: from inside a callback another goroutine tries to delete the very key the callback is looking at.
+	// The callbacks run under the map's lock, so the delete cannot take effect before the callback has returned:
+	// "callbacks run against the value actually in the map".
+	intruderOn := t.Chance(1, 3)
+	intruded := false
+	intrude := func(k int, what string) {
+		e.mu.Lock()
+		if !intruderOn || intruded {
+			e.mu.Unlock()
+			return
+		}
+		intruded = true
+		subClient++
+		sc := subClient
+		e.mu.Unlock()
+		e.Probe("callback.intruderTried")
+		took := false
+		rec := &c14Rec{client: sc, in: c14In{Op: mDeleteWithFunc, K: k}}
+		go func() {
+			rec.call = tick()
+			m.DeleteWithFunc(k, func(v int) {
+				rec.out.Cb, rec.out.CbV = true, v
+				e.mu.Lock()
+				took = true
+				e.mu.Unlock()
+			})
+			rec.ret = tick()
+			add(rec)
+		}()
+		for i := 0; i < 4; i++ {
+			runtime.Gosched()
+		}
+		e.mu.Lock()
+		t := took
+		e.mu.Unlock()
+		if t {
+			e.Violate("C14.R2", "callback-outside-the-lock:"+what, "while the %s callback for key %d was running, a concurrent delete of that key took effect: the callback works on a value that is no longer in the map", what, k)
+		}
+	}
+
 	type opSpec struct {
 		in c14In
 	}
@@ -325,14 +365,17 @@ func c14Run(e *Env, isCache bool) {
 			m.StoreWithFunc(in.K, func() int { return in.V })
 		case mLoadWithFunc:
 			r.call = tick()
-			_, r.out.Ok = m.LoadWithFunc(in.K, func(v int) int { r.out.Cb, r.out.CbV = true, v; return v })
+			_, r.out.Ok = m.LoadWithFunc(in.K, func(v int) int { r.out.Cb, r.out.CbV = true, v; intrude(in.K, "LoadWithFunc"); return v })
 		case mLoadOrStoreWithFunc:
 			r.call = tick()
-			_, r.out.Ok = m.LoadOrStoreWithFunc(in.K, func(v int) int { r.out.Cb, r.out.CbV = true, v; return v }, func() int { return in.V })
+			_, r.out.Ok = m.LoadOrStoreWithFunc(in.K, func(v int) int { r.out.Cb, r.out.CbV = true, v; intrude(in.K, "LoadOrStoreWithFunc"); return v }, func() int { return in.V })
 		case mReplaceWithFunc:
 			r.call = tick()
 			r.out.V, r.out.Ok = m.ReplaceWithFunc(in.K, func(old int, loaded bool) (int, bool) {
 				r.out.Cb, r.out.CbV, r.out.CbOk = true, old, loaded
+				if loaded {
+					intrude(in.K, "ReplaceWithFunc")
+				}
 				return in.V, in.Del
 			})
 		case mDeleteWithFunc:
